@@ -205,6 +205,11 @@ def run(chk, tier):
         chk.expect((dict(a_ - b_), dict(b_ - a_)) == want_diff, "wire-loop", f"{side}::{meth}", "(i)sync-and-async-twins-make-the-same-calls", {"only sync": want_diff[0], "only async": want_diff[1]},
                    {"only sync": dict(a_ - b_), "only async": dict(b_ - a_)}, loc=C.fn_loc(v["sync"]))
     chk.floor("wire-loop", "sync/async twin pairs", n_tw, 6)
+    # the parser hands back the PDU it parsed: it never goes on to the next one by itself (a PDU on the wire is never hidden from the
+    # association layer, in strict or non-strict mode)
+    hrp = fx.hirfn("dicom_ul::pdu::reader::read_pdu")
+    rec = [x[1] for c_, x in H.calls(hrp["body"]) if c_ and c_.endswith("pdu::reader::read_pdu")]
+    chk.expect(not rec, "wire-loop", "read_pdu", "(j)one-pdu-per-call", "no recursive / repeated read_pdu inside read_pdu", [f"line {ln}" for ln in rec], loc=C.fn_loc(hrp))
     chk.expect(not touch, "wire-loop", "associations", "(h)only-the-wire-readers-consume-the-carried-buffer", "no clear / advance / truncate / split of self.read_buffer in client.rs / server.rs", touch)
     # the parser under the loops: a partial PDU must come back as "incomplete", never as a panic or a misread —
     # every cursor read needs a dominating availability proof (same GUARD as C25's pdu-budget)
